@@ -27,6 +27,7 @@ structure Arg where
   name : String
   type : TRef
   dirs : List DirUse := []
+  hasDefault : Bool := false
   deriving Repr, Inhabited
 
 structure Field where
@@ -64,6 +65,7 @@ structure Cfg where
   dupScalarOverScalar : Bool := true      -- D43s: a scalar whose name is taken by a scalar is silently dropped (the suite declares a Go-registered scalar again)
   dirArgWrapperAccepted : Bool := true    -- D44: directive arguments: List / NonNull of anything pass (`InCoercer`)
   subtypeNarrow : Bool := true            -- D45: covariance only for `T` vs `T!`, lists, non-null — not `Obj!` under `Iface`
+  dirRequiredUnchecked : Bool := true     -- D78: a directive use may leave out a required argument (directive and use in one document)
 
 def builtinScalars : List String := ["Int", "Float", "String", "Boolean", "ID", "Int64", "Float64", "Time"]
 
@@ -317,18 +319,27 @@ def literalFits (t : TRef) (k : String) : Bool :=
   | _, "other" => true
   | _, _ => false
 
-/-- one use at one location -/
-def useOk (s : Schema) (loc : String) (u : DirUse) : Bool :=
+/-- the arguments of directive `n` a use must give: non-null type, no default -/
+def requiredArgs (s : Schema) (n : String) : List String :=
+  match s.find? (fun d => d.isDirective && d.name == n) with
+  | some (.directive _ args _) =>
+    (args.filter (fun a => !a.hasDefault && (match a.type with | .nonNull _ => true | _ => false))).map (·.name)
+  | _ => []
+
+/-- one use at one location; `req`: required arguments are asked for -/
+def useOk (s : Schema) (loc : String) (u : DirUse) (req : Bool := true) : Bool :=
   match findDirective s u.name with
   | none => false
   | some (locs, args) =>
     locs.contains loc &&
     u.args.all (fun a => match args.find? (fun d => d.1 == a.1) with
       | some d => literalFits d.2 a.2
-      | none => false)
+      | none => false) &&
+    (!req || (requiredArgs s u.name).all (fun r => u.args.any (fun a => a.1 == r)))
 
 /-- R10: directive uses only at declared locations, with declared and coercible arguments -/
 def ruleDirUses (cfg : Cfg) (s : Schema) : Bool :=
+  let useOk := fun (s : Schema) (loc : String) (u : DirUse) => useOk s loc u (!cfg.dirRequiredUnchecked)
   let fieldLevel := fun (loc : String) (us : List DirUse) => cfg.fieldDirUsesUnchecked || us.all (useOk s loc)
   s.all (fun d => match d with
     | .scalar _ ds => ds.all (useOk s "SCALAR")
@@ -374,7 +385,7 @@ def checkAll (cfg : Cfg) (s : Schema) : Bool :=
 /-- the property's notion: all rules, no deviation -/
 def strict : Cfg :=
   { fieldDirUsesUnchecked := false, argLocIsInputField := false, dupScalarDropped := false, dupScalarOverScalar := false,
-    dirArgWrapperAccepted := false, subtypeNarrow := false }
+    dirArgWrapperAccepted := false, subtypeNarrow := false, dirRequiredUnchecked := false }
 
 def wellFormed (s : Schema) : Bool := checkAll charMap tokenClass strict s
 
